@@ -66,7 +66,13 @@ def shard(args):
     resA = fw.run_hx([bdir + '/hx', 'run', pa, '--crash-dir', wd], timeout=7200)
     resB = fw.run_hx([bdir + '/hx', 'seg', pb, '--seed', str(seed), '--fixed', '5', '--random', '12' if tier == 'quick' else '40', '--max-single', '1200', '--crash-dir', wd], timeout=7200)
     out = dict(viol=[], crashes=resA['crashes'] + resB['crashes'], hung=resA['hung'] or resB['hung'], n=0, distinct=set(), samples=[], monitor=[], parts=0, flags={}, feats=feats,
-               segS=[], segM=[], casesB={c[0]: c for c in casesB})
+               segS=[], segM=[], casesB={})
+    fw.discard(pa, pb)
+    wantedB = set()
+    for l in resB['lines']:
+        if l.startswith('M '):
+            wantedB.add(json.loads(l[2:])['id'])
+    out['casesB'] = {c[0]: c for c in casesB if c[0] in wantedB}
     for l in resA['lines']:
         if not l.startswith('D '):
             continue
@@ -115,7 +121,7 @@ def run(tier):
     wd = fw.workdir('C14')
     fw.replay_dir('C14')
     n = SIZES[tier]
-    nsh = fw.NPROC
+    nsh = fw.nshards(n, SIZES['quick'])
     outs = fw.pool_map(shard, [(bdir, wd, fw.seed(), s, nsh, n, tier) for s in range(nsh)])
     tot, parts = 0, 0
     distinct, samples, flags, feats = set(), [], {}, {}
